@@ -79,8 +79,13 @@ def fresh_compile(text, **kw):
 
 
 def try_compile(text, **kw):
+    import contextlib
+    import io
+    import warnings
     try:
-        return fresh_compile(text, **kw), None
+        with warnings.catch_warnings(), contextlib.redirect_stderr(io.StringIO()):
+            warnings.simplefilter('ignore')  # `>>` deprecation chatter
+            return fresh_compile(text, **kw), None
     except CaseTimeout:
         return None, 'timeout'
     except RecursionError:
@@ -320,8 +325,9 @@ _BASE_BATTERY = None
 def base_battery():
     global _BASE_BATTERY
     if _BASE_BATTERY is None:
-        b = [''] + list(strings(BASE_SIGMA, 3))
-        b += ['a,a,a', 'a,a,b', 'a a a b', 'aaaa', 'a b a b', 'a\nb', 'a\n', '\na', 'a\n\nb', 'b\na', 'a,b,a', 'abab', 'a, a',
+        b = [''] + list(strings(BASE_SIGMA, 2))
+        b += ['aaa', 'aab', 'aba', 'baa', 'a a', 'a b', 'b a', 'a,a', 'a,b', 'b,a', ',a,', 'a,,', 'bab', 'bbb', 'a ,', ', a', ' a ',
+              'a,a,a', 'a,a,b', 'a a a b', 'aaaa', 'a b a b', 'a\nb', 'a\n', '\na', 'a\n\nb', 'b\na', 'a,b,a', 'abab', 'a, a',
               'a,a,', ',a,a', 'b b b b', 'a,a,a,a', 'a a a a', 'x', 'x y', '1', '-1', '1.5', 'true', 'false', 'True',
               '1 2', 'a 1', 'ax', 'xa', 'a x', 'c', 'ac', 'a c', 'c a']
         _BASE_BATTERY = list(dict.fromkeys(b))
@@ -650,7 +656,7 @@ def inputs_for(case, m):
         if k.startswith('calc'):
             return ['1', '1+2', '1 + 2 * 3', '(1+2)*3', '1+', '', '2*(3-4)/5', 'x', '10 - 2 - 3', '((1))', '1 2']
         if k.startswith('tatsu'):
-            texts = [t for _, t in RULE_CASES[:40]] + [AUX + f"start = {f} $ ;" for _, f in KINDS] + ['', 'start', 'start = ;']
+            texts = [t for _, t in RULE_CASES[::4]] + [AUX + f"start = {f} $ ;" for _, f in KINDS[::6]] + ['', 'start', 'start = ;']
             return texts
         return ['', "grammar T; start: 'a';", 'grammar T; a: b | c; b: \'x\'+; c: [a-z]* ;', 'x']
     if g == 'atoms':
@@ -752,6 +758,14 @@ def run_case(case):
     keys = []
     seen_pretty = set()
     for vname, vm in variants:
+        if vname:
+            # a variant whose pretty text equals an already checked one recompiles to the very same model
+            try:
+                with deadline(20):
+                    if vm.pretty() in seen_pretty:
+                        continue
+            except BaseException:  # noqa: BLE001  (reported by roundtrip below)
+                pass
         try:
             inputs = inputs_for(case, vm)
         except Exception:  # noqa: BLE001
@@ -760,8 +774,6 @@ def run_case(case):
         c['variant'] = vname
         fails, facts = roundtrip(vm, inputs, start=case.get('start'), rails=True)
         p = facts.get('pretty')
-        if p is not None and p in seen_pretty and not fails:
-            continue
         seen_pretty.add(p)
         res['n_inputs'] += len(inputs)
         res['variants'] += 1
